@@ -363,6 +363,35 @@ Lemma borrow_eval_spec : forall g b,
   e_th (borrow_eval g b) = applicable_threshold b /\ e_unsafe (borrow_eval g b) = borrow_unsafe b.
 Proof. intros. repeat split. Qed.
 
+(* outside the class C09-F5 the property's hypotheses make the visit seize an unsafe borrow: the
+   hypothesis "vf x = VSeize" of the borrow liveness theorems is exactly "hypotheses + unsafe" there *)
+Lemma live_borrow_verdict : forall b,
+  live_hyp_borrow b = true -> borrow_unsafe b = true -> kf_C09_5 b = false ->
+  seize_rule_borrow GB2 b = VSeize.
+Proof.
+  intros b Hh Hu Hk. unfold kf_C09_5 in Hk. rewrite Hh, Hu in Hk. cbn in Hk.
+  apply Bool.negb_false_iff in Hk.
+  unfold live_hyp_borrow in Hh. repeat (apply andb_prop in Hh; destruct Hh as (Hh & ?)).
+  unfold borrow_unsafe in Hu. unfold seize_rule_borrow, seize_rule_borrow_of, borrow_start_ok.
+  rewrite Hh. cbn [negb]. apply Bool.negb_true_iff in H4. rewrite H4. rewrite H3. cbn [negb].
+  apply Bool.negb_true_iff in H2. rewrite H2. rewrite H1. cbn [negb].
+  destruct (ratio_above b) as [[|]| |]; try discriminate.
+  cbn. rewrite H0. cbn [negb]. rewrite Hk, H. reflexivity.
+Qed.
+
+(* a borrow whose visit does not reach VSeize is not seized by any sweep, whatever the list, the
+   offset and the batch size *)
+Lemma not_seize_never : forall g bs cap off batch r b,
+  g <> GV1 -> NoDup (map b_id bs) -> In b bs -> seize_rule_borrow g b <> VSeize ->
+  sweep_one g 0 (map (pos_of_borrow g) bs) cap (zlen bs) off batch = Ok r ->
+  ~ In (b_id b) (r_seized r).
+Proof.
+  intros g bs cap off batch r b Hg Hnd Hb Hv H Hin.
+  destruct (sweep_one_seized _ _ _ _ _ _ _ _ _ H Hin) as (p & Hp & Hid & Hpv & _).
+  apply in_map_iff in Hp. destruct Hp as (w & <- & Hw). cbn [pos_of_borrow p_id p_v] in Hid, Hpv.
+  assert (w = b) by (eapply nodup_bid_unique; eauto). subst w. contradiction.
+Qed.
+
 (* the threshold applicable to a borrow, case by case, as liquidate.go:295-349 computes it *)
 Lemma applicable_threshold_cases : forall b,
   (b_bridged_amt b = 0 -> applicable_threshold b = Ok (base_threshold b)) /\
